@@ -508,6 +508,13 @@ class ApplyLinks(Processor):
         # nodes
         for inter_type in self.applied_links:
             for atoms, (interaction, citation) in self.applied_links[inter_type].items():
+                # an exclusion row names an atom and its partners; when a link removes
+                # one of the partners the others stay excluded
+                if inter_type == "exclusions" and interaction.atoms[0] not in self.nodes_to_remove:
+                    kept = [atom for atom in interaction.atoms if atom not in self.nodes_to_remove]
+                    if len(kept) < 2:
+                        continue
+                    interaction = interaction._replace(atoms=kept)
                 if not any(atom in self.nodes_to_remove for atom in interaction.atoms):
                     meta_molecule.molecule.interactions[inter_type].append(interaction)
                     meta_molecule.molecule.citations.update(citation)
